@@ -310,7 +310,10 @@ def run(chk, repo):
                    f"{h}() indexes self.{a} by position but runs before self.{a}.sort()", key=f"{sr.qual}::sorted-before::{h}::{a}", fn=sr.qual)
     from rules.C13 import byte_offsets
     byte_offsets(chk, repo, 'C11.h', 'gtf.GTFPointer:iterate_pointer')
-
+    from rules.shared import sorted_before_use
+    chk.rule('C11.j', 'R-ORDER: Sec positions attached to the transcript sequence are sorted in transcript order', 1)
+    chk.clauses.append('C11.j the Sec positions attached to a transcript sequence are sorted after the strand-dependent coordinate conversion')
+    sorted_before_use(chk, repo, 'C11.j', 'gtf.TranscriptAnnotationModel:TranscriptAnnotationModel.get_transcript_sequence', 'DNASeqRecordWithCoordinates', 'selenocysteine', 'the converted Sec positions are in genomic order, which is descending transcript order on the - strand; PVGNode.fix_selenocysteines and the Sec truncation consume them in ascending order (a - strand transcript with two Sec codons is translated wrongly)')
 
 def exon_loop_inverse(chk, repo, rid):
     """E8: per-iteration affine summaries of the two exon loops, decided over cone domains (see sa/loops.py)"""
